@@ -1,3 +1,4 @@
+-- FAMILIES: bfe=TF.Drv.BField.bfe xfe=TF.Drv.BField.xfe
 import TF.Drv.Proto
 import TF.Model.BField
 import TF.Model.XField
